@@ -361,7 +361,7 @@ func (t *Transport) WaitReadParked(timeout time.Duration) bool {
 	deadline := time.Now().Add(timeout)
 	t.mu.Lock()
 	defer t.mu.Unlock()
-	for !(t.closed || (t.readWaiting && len(t.inbound) == 0)) {
+	for !(t.closed || (t.readWaiting && !t.readableLocked())) {
 		if time.Now().After(deadline) {
 			return false
 		}
